@@ -201,6 +201,8 @@ def run_c11(pid):
         iid, rule, cls = int(m.group(1)), m.group(3), m.group(5)
         sig = "%s rule=%s class=%s" % (pid, rule, re.sub(r"-\d+$", "", cls))
         v.violation(sig, "rule %s fails for the byte encoding of item %d (%s)%s" % (rule, iid, cls, m.group(6)[:300]), {"class": cls})
+    ca = comment_algebra(wd, t)
+    log("[%s] growth: CommentAlgebra %d states, %d histories replayed on VorbisComment, %d mismatches (non-gating)" % (pid, ca["states"], ca["histories"], ca["mismatches"]))
     rc = v.finish()
     classes = sorted({re.sub(r"-\d+$", "", it["class"]) for it in items})
     write_evidence(pid, "model_checking", {
@@ -214,7 +216,7 @@ def run_c11(pid):
                 "(TLC) requires the written bytes to equal MetaFormat.MetaSerialize, bytes() to equal the body size, equal read-back, and an error (not "
                 "a panic) for invalid lists; the MetaSerialize encodings are also fed to the reader, re-written and re-read (converse direction)"
                 % (5 if t == "quick" else 6),
-        "classes": classes, "outcomes": outcomes, "valid_lists_refused_notes": notes,
+        "classes": classes, "outcomes": outcomes, "valid_lists_refused_notes": notes, "growth_comment_algebra": ca,
         "known_findings_hit": {k: n for k, (kk, n) in v.known_hits.items()}},
         time.time() - t0, len(v.violations),
         ["TLC/SANY, CommunityModules", "MetaFormat is written from RFC 9639 as I know it", "free-text fields are covered by length / encoding classes only"])
@@ -438,3 +440,24 @@ def run_c12(pid):
         ["TLC/SANY, CommunityModules", "allocation is measured by a counting global allocator", "arbitrary unstructured bytes / texts are not explored (structured malformation only)"])
     log("[%s] inputs=%d outcomes=%s violations=%d known=%d wall=%.1fs" % (pid, len(items), outcomes, len(v.violations), len(v.known_hits), time.time() - t0))
     return rc
+
+
+def comment_algebra(wd, t):
+    """Growth beyond the listed properties (non-gating): VorbisComment field algebra against CommentAlgebra.tla."""
+    consts = 'cKeys == {"TITLE", "title", "Artist"}\ncFold == [k \\in cKeys |-> IF k = "Artist" THEN "ARTIST" ELSE "TITLE"]\ncValues == {"a", "b"}\n'
+    cfgc = "CONSTANTS\n Keys <- cKeys\n Fold <- cFold\n Values <- cValues\n MaxOps = %d\n" % (3 if t == "quick" else 4)
+    mp = write_text(os.path.join(wd, "MCCA.tla"), "---- MODULE MCCA ----\nEXTENDS CommentAlgebra\n" + consts + "====\n")
+    cp = write_text(os.path.join(wd, "MCCA.cfg"), cfgc + "SPECIFICATION Spec\nVIEW View\nINVARIANT Emit SetThenGet RemoveRemovesAllSpellings OthersUntouched InsertAppends\nCHECK_DEADLOCK FALSE\n")
+    r = tlc(mp, cp, wd, workers=1, timeout=1200)
+    if r["errors"]:
+        sys.stderr.write(r["out"][-2000:])
+        raise ToolError("CommentAlgebra model check failed")
+    hs = gen_payloads(r["out"])
+    tp = os.path.join(wd, "trace_comments.ndjson")
+    run_drive("comments", {"out": tp, "keys": ["TITLE", "title", "Artist"], "histories": [[{"op": s["op"]} for s in h] for h in hs]}, wd, tag="comments")
+    tm = write_text(os.path.join(wd, "TRCA.tla"), "---- MODULE TRCA ----\nEXTENDS Trace_Comment\n" + consts + "====\n")
+    tc = write_text(os.path.join(wd, "TRCA.cfg"), cfgc + "SPECIFICATION TSpec\nPOSTCONDITION Post\nCHECK_DEADLOCK FALSE\n")
+    tr = tlc_trace(tm, tc, tp, wd)
+    for ln in tr["rejects"][:5]:
+        log("GROWTH-SPEC-MISMATCH module=CommentAlgebra " + ln[:300])
+    return {"states": r["distinct"], "histories": len(hs), "mismatches": len(tr["rejects"])}
